@@ -14,6 +14,11 @@ CLAIMS = {
   note="origin tracking is context-insensitive and field-based; references stored as elements of non-derived containers are re-discovered by type only; stdlib/x-text/x-image trusted; no unsafe/reflect/cgo (checked)",
   technique="static analysis: interprocedural origin (taint) tracking on go/ssa + VTA call-graph reachability (init-only / post-construction sets)",
   ref="DESIGN.md §4 C17"),
+ "C19": dict(
+  text="Two structural clauses of 'written files read back unchanged': (R-RO) origin tracking from WriteTTF's tables parameter shows that no store, copy/append/Put* destination in any function targets caller memory (an append whose first operand is caller memory counts as a write into its spare capacity); (R-DIR) the directory entry layout of the writer agrees with readOTFEntry field by field — at the offset where the reader assigns Tag/CheckSum/Offset/Length the writer stores a 32-bit value of that role (the table's tag, checksum(table.Content), the running offset, len(Content)), the body copy loop follows the same offset recurrence, and numTables is written where readOTFHeader reads it. Checksum arithmetic and header search fields are not decided.",
+  note="encoding/binary trusted; roles are recognised on SSA values (field of Table, call of checksum on that table's Content, len(Content), phi advanced by len(Content))",
+  technique="static analysis: origin tracking (P-ORG) + writer/reader layout extraction on go/ssa",
+  ref="DESIGN.md §4 C19"),
  "C20": dict(
   text="Static, exhaustive evaluation of every generated table literal (P-LIT) against the coherence conditions the lookups rely on (sortedness/disjointness for bisection, family disjointness, pre-filter = union, compose/decompose inverse, mirroring involution, language table order/canonical form/identifier correspondence) plus an SSA-derived bit-effect check of di.Direction setters/getters. Decides internal coherence for all code points; does not decide agreement with the UCD.",
   note="trusts unicode.Is, sort.Search and the short bisection loops; tables are evaluated from syntax with go/types constants, nothing is executed",
